@@ -1,6 +1,7 @@
 package main
 
 import (
+	"runtime/debug"
 	"fmt"
 	"os"
 	"go/token"
@@ -52,7 +53,7 @@ func (e *Engine) verifyFunction(fc *FuncContract, mode *Mode) *VC {
 func (e *Engine) genFunction(fc *FuncContract, mode *Mode, auto map[string]int) (vc *VC) {
 	vc = newVC(e, fc.Key)
 	vc.qf = fc.QF
-	fn := e.findFunction(fc.Key)
+	fn := e.findFunctionFor(fc)
 	if fn == nil {
 		vc.unsupportedf("unbound-contract: no function %s", fc.Key)
 		return vc
@@ -61,6 +62,9 @@ func (e *Engine) genFunction(fc *FuncContract, mode *Mode, auto map[string]int) 
 		if r := recover(); r != nil {
 			if s, ok := r.(string); ok || true {
 				vc.unsupportedf("engine panic: %v %v", r, s)
+				if os.Getenv("VERIF_DEBUG") != "" {
+					debug.PrintStack()
+				}
 			}
 		}
 	}()
@@ -94,8 +98,13 @@ func (e *Engine) genFunction(fc *FuncContract, mode *Mode, auto map[string]int) 
 	for _, c := range e.db.axioms {
 		vc.assume(tTrue, fr.evalAssume(c, st, nil))
 	}
-	for _, c := range fc.Requires {
+	for _, c := range fc.Assumes {
 		vc.assume(tTrue, fr.evalAssume(c, st, nil))
+	}
+	if mode == nil || !mode.Safety {
+		for _, c := range fc.Requires {
+			vc.assume(tTrue, fr.evalAssume(c, st, nil))
+		}
 	}
 	vc.cover("cover#requires:"+shortType(fc.Key), fr.topProps, tTrue, pos)
 	for _, c := range fc.Lemmas {
@@ -103,7 +112,7 @@ func (e *Engine) genFunction(fc *FuncContract, mode *Mode, auto map[string]int) 
 			vc.oblige("lemma", fr.oblName("lemma", c, nil), c.Props, tTrue, fr.evalClause(c, st, nil), pos, c.Src)
 		}
 	}
-	if fc.Trusted {
+	if fc.Trusted && !(mode != nil && mode.Safety && !fc.Reflective) {
 		vc.assumptions["trusted (body not verified): "+shortType(fc.Key)] = true
 		return vc
 	}
@@ -123,6 +132,19 @@ func (e *Engine) genFunction(fc *FuncContract, mode *Mode, auto map[string]int) 
 	}
 	if res.Len() == 1 {
 		fr.lets["result"] = Binding{term: vals[0], typ: res.At(0).Type()}
+	}
+	if mode != nil && mode.Safety {
+		// postconditions tagged C05 are proved here under the object invariants alone, which is what
+		// entitles callers in the safety sweep to assume them
+		fr.atExit = true
+		for _, c := range fc.Ensures {
+			if !hasProp(c.Props, "C05") {
+				continue
+			}
+			g := fr.evalClause(c, out, nil)
+			vc.oblige("post", fr.oblName("post", c, nil), c.Props, out.guard, g, pos, c.Src)
+		}
+		return vc
 	}
 	fr.atExit = true
 	// ghost definitions: the ghost variables named in "defines[...]" are updated at return
@@ -280,4 +302,13 @@ func splitConj(e *CExpr) []*CExpr {
 		}
 	}
 	return []*CExpr{e}
+}
+
+func hasProp(ps []string, p string) bool {
+	for _, x := range ps {
+		if x == p {
+			return true
+		}
+	}
+	return false
 }
